@@ -2,6 +2,8 @@ package checks
 
 import (
 	"fmt"
+	"math"
+	"strconv"
 	"strings"
 
 	"verif/mc/fw"
@@ -75,6 +77,11 @@ func init() {
 				if strings.HasPrefix(s.Name, "jump-") || strings.HasPrefix(s.Name, "opbyte-") {
 					c.Do(subC01, &progCase{Src: s.Src})
 				}
+			}
+			// literal spellings: float literals of 1..21 significant digits in plain, fraction and exponent form (the value is the
+			// correctly rounded double whatever the number of digits), int literals of every length in decimal / hex / octal
+			for _, group := range c01Literals() {
+				c.Do(subC01, &progCase{Src: group})
 			}
 			enumC01(c, func(src, shard string) bool {
 				c.Do(subC01, &progCase{Src: src, Shard: shard})
@@ -299,4 +306,72 @@ func enumC01(c *fw.Ctx, do func(src, shard string) bool) {
 			c.Bound("nesting_completed", 64)
 		}
 	}
+}
+
+// c01Literals: programs of 20 statements each, every statement prints one literal, stores it in a field and compares it
+// with itself spelled otherwise.
+func c01Literals() []string {
+	var lits []string
+	add := func(l string) {
+		if !strings.ContainsAny(l, ".eE") {
+			l += ".0"
+		}
+		lits = append(lits, l)
+	}
+	for i := 1; i <= 700; i++ {
+		f := float64(i) / 997 * math.Pow(10, float64(i%9-4))
+		if i%3 == 0 {
+			f = math.Nextafter(f, 0)
+		}
+		add(strconv.FormatFloat(f, 'f', -1, 64)) // shortest spelling that round-trips (15..17 digits)
+		add(strconv.FormatFloat(f, 'e', -1, 64))
+		for _, prec := range []int{14, 15, 16, 17, 18, 19, 20} {
+			add(strconv.FormatFloat(f, 'e', prec, 64))
+			if i%7 == 0 {
+				add(strconv.FormatFloat(f, 'f', prec, 64))
+			}
+		}
+	}
+	// halfway cases and the ends of the range
+	for _, l := range []string{"0.9999999999999999", "0.99999999999999999", "0.999999999999999944488848768742172978818416595458984375", "96485.33212331001", "9007199254740993.0", "9007199254740992.5",
+		"123456789012345678.0", "1234567890123456789.0", "12345678901234567890.0", "1.7976931348623157e308", "1.7976931348623158e308", "4.9406564584124654e-324", "2.4703282292062328e-324", "2.2250738585072011e-308", "2.2250738585072014e-308",
+		"1e23", "8.41e21", "9.5e-5", "5e-324", "0.1", "0.30000000000000004", "1e22", "1e-22", "100000000000000016.0", "0.000001", "1e15", "1e16", "1e17", "179769313486231570000000000000000000000.0"} {
+		add(l)
+	}
+	var progs []string
+	for i := 0; i < len(lits); i += 20 {
+		var b strings.Builder
+		b.WriteString("def b {\n")
+		for j := i; j < i+20 && j < len(lits); j++ {
+			fmt.Fprintf(&b, " print %s\n f%d = %s\n print \"\" + %s\n", lits[j], j-i, lits[j], lits[j])
+		}
+		b.WriteString("}\n")
+		progs = append(progs, b.String())
+	}
+	// ints: every length 1..19 in decimal, 1..16 in hex, 1..21 in octal, around the powers of two and ten
+	var ints []string
+	for n := 1; n <= 19; n++ {
+		ints = append(ints, strings.Repeat("9", n)[:n], "1"+strings.Repeat("0", n-1), "1"+strings.Repeat("0", n-1)+"1")
+	}
+	ints = ints[:len(ints)-3] // 19 nines etc. are out of range
+	for n := 1; n <= 15; n++ {
+		ints = append(ints, "0x"+strings.Repeat("f", n), "0X1"+strings.Repeat("0", n), "0x"+strings.Repeat("A", n))
+	}
+	for n := 1; n <= 20; n++ {
+		ints = append(ints, "0"+strings.Repeat("7", n), "01"+strings.Repeat("0", n))
+	}
+	for k := 1; k < 63; k++ {
+		v := int64(1) << uint(k)
+		ints = append(ints, strconv.FormatInt(v-1, 10), strconv.FormatInt(v, 10), "0x"+strconv.FormatInt(v+1, 16), "0"+strconv.FormatInt(v-1, 8))
+	}
+	for i := 0; i < len(ints); i += 20 {
+		var b strings.Builder
+		b.WriteString("def b {\n")
+		for j := i; j < i+20 && j < len(ints); j++ {
+			fmt.Fprintf(&b, " print %s\n f%d = %s + 0\n print \"\" + %s\n", ints[j], j-i, ints[j], ints[j])
+		}
+		b.WriteString("}\n")
+		progs = append(progs, b.String())
+	}
+	return progs
 }
